@@ -186,6 +186,11 @@ def check_contract(prog, results, where, viol):  # noqa: C901
                 for node in reflect.walk(expr):
                     if isinstance(node, (pt.DistributedRecv, pt.DistributedSendRefHolder)):
                         V("communication-node-inside-part", f"rank {r}: output {n!r} of part {pid} contains a {type(node).__name__}")
+                    if isinstance(node, pt.Placeholder) and node.name != n and node.name not in p.all_input_names() \
+                            and node.name not in p.name_to_recv_node:
+                        V("expression-reads-undeclared-name", f"rank {r}: output {n!r} of part {pid} reads placeholder {node.name!r}, "
+                          f"which is neither in its user_input_names / partition_input_names {sorted(p.all_input_names())} nor "
+                          f"received by it")
                     if isinstance(node, pt.Placeholder) and node.name not in readable and node.name != n:
                         V("expression-reads-unlisted-name", f"rank {r}: output {n!r} of part {pid} reads placeholder {node.name!r} "
                           f"that is not among its inputs")
